@@ -96,6 +96,10 @@ def ops_for(r: fr.RefAction, full: bool, step: int):
             out.append([name, 2])
             out.append([name, "same", list(ish)])
             out.append([name, "diffcoords", list(ish)])
+            if nodims >= 2 and labelled:
+                out.append([name, "drop-first-dim", list(ish)])
+            if labelled and "w" not in r.dims and (full or name in ("subtract", "divide")):
+                out.append([name, "extra-dim", list(ish)])
         if labelled and "w" not in r.dims:
             out.append(["broadcast", "extra-dim", list(ish)])
             out.append(["join", "newlabels-first", r.dims[0], None, list(ish)])
